@@ -168,6 +168,9 @@ pub fn generate(seed: u64, config: u64, scale: u32) -> Case {
             b: r.next_u32(),
         });
     }
+    if text.len() > (1 << 20) {
+        ops.truncate(8); // multi-megabyte texts: a short history is enough and keeps the run cheap
+    }
     let inside_crlf = faults && r.chance(1, 3);
     Case { text, ops, inside_crlf }
 }
@@ -542,7 +545,7 @@ pub fn shrink(case: &Case) -> Vec<Case> {
     for rem in chunk_removals(&chars) {
         out.push(Case { text: rem.into_iter().collect(), ..case.clone() });
     }
-    for i in 0..chars.len() {
+    for i in 0..if chars.len() <= 600 { chars.len() } else { 0 } {
         let repl = match chars[i] {
             'a' | '\n' => continue,
             '\r' if i + 1 < chars.len() && chars[i + 1] == '\n' => continue,
